@@ -10,10 +10,10 @@ import ast
 from ..core import rule, AnalysisError
 from ..engine import emit, typestate
 from ..engine import pattern as P
-from ..engine.facts import dotted, const, src, walk_func, ancestors
+from ..engine.facts import dotted, const, src, walk_func, ancestors, enclosing_stmt
 from .common import contains
 from . import skeletons as sk
-from .common import pn, access_paths
+from .common import pn, access_paths, guards_of, branch_paths, return_leaves, arms
 from . import c13  # registers skeleton-typestate and runtime-pairing for C05
 
 
@@ -343,37 +343,52 @@ def attribute_pieces(ctx):
     from .c01 import _flags_value
     from ..engine.facts import str_value
     fn = db.func("parsetree.Tag._parse_attributes")
-    loops = [n for n in ast.walk(fn) if isinstance(n, ast.For) and isinstance(n.target, ast.Name) and P.has(n.iter, "re.compile($r, $f).split(self.attributes[$k])")]
+    from .common import regex_of
+    # the loop over the pieces: iterates re.split(<pattern capturing ${...}>, <attribute value>)
+    loops = []
+    for n in ast.walk(fn):
+        if isinstance(n, ast.For) and isinstance(n.target, ast.Name) and isinstance(n.iter, ast.Call):
+            ro = regex_of(db, n.iter, "parsetree")
+            if ro and ro[0] == "split" and ro[1] is not None and "${" in ro[1].replace("\\", ""):
+                loops.append((n, ro))
     ctx.require(len(loops) == 1, "_parse_attributes: the loop over the pieces of an expression attribute was not found")
-    lp = loops[0]
+    lp, (_m, pat, fl, subj) = loops[0]
     x = lp.target.id
-    env = {}
-    P.matches(lp.iter, "re.compile($r, $f).split(self.attributes[$k])", env)
-    pat, fl = str_value(env["r"][1]), _flags_value(env["f"][1])
-    ctx.require(pat is not None, "split regex is not constant")
+    # the value that is split is the attribute's value
+    vals = {src(subj)} if subj is not None else set()
+    if isinstance(subj, ast.Name):
+        vals |= {src(s_.value) for s_ in walk_func(fn) if isinstance(s_, ast.Assign) and isinstance(s_.targets[0], ast.Name) and s_.targets[0].id == subj.id}
+    ctx.check(any(P.matches(ast.parse(v_, mode="eval").body, "self.attributes[$k]") for v_ in vals), "split.subject", db.where(lp), "the pieces are not taken from the attribute's value (%s)" % sorted(vals), "re.split over self.attributes[key]")
     sub = rx.parse(pat, fl)
     items = list(sub)
     ctx.check(len(items) == 1 and items[0][0] == rx.OP.SUBPATTERN and items[0][1][0] == 1, "split.keeps-expressions", db.where(lp), "the split regex %r does not capture the whole ${...}: re.split would drop the expressions" % pat, "whole ${...} captured: split keeps text and expressions in order")
     lits = [(n_, e_) for n_, e_ in P.find(lp, "$e.append(repr(%s))" % x)]
     ctx.check(len(lits) == 1, "literal.repr", db.where(lp), "a text piece is not appended as repr(piece)", "text piece -> repr(piece)")
+    # the match object of the expression test
+    mvs = {s_.targets[0].id: s_ for s_ in ast.walk(lp) if isinstance(s_, ast.Assign) and isinstance(s_.targets[0], ast.Name) and isinstance(s_.value, ast.Call) and (regex_of(db, s_.value, "parsetree") or (None,))[0] == "match" and src(regex_of(db, s_.value, "parsetree")[3]) == x}
     if lits:
         call = lits[0][0]
-        guards = []
-        child = call
-        for a_ in ancestors(call):
-            if a_ is lp:
-                break
-            if isinstance(a_, ast.If):
-                guards.append((a_, any(contains(b_, child) for b_ in a_.body)))
-            child = a_
-        # innermost guard decides which text pieces are kept: only the empty string may be dropped
-        ok = bool(guards) and guards[0][1] and (src(guards[0][0].test) in (x, "%s != ''" % x, "len(%s)" % x, "len(%s) > 0" % x))
-        ctx.check(ok, "literal.every-non-empty", db.where(guards[0][0]) if guards else db.where(call), "text pieces are kept under `%s`: pieces other than the empty string (e.g. the blank between two expressions) are dropped from the value" % (src(guards[0][0].test) if guards else "?"), "every non-empty text piece kept")
-    exprs = P.find(lp, "$e.append('(%s)' % $m.group(1))")
+        g_ = guards_of(call, lp)
+        # kept exactly when it is not an expression piece and not the empty string
+        allowed = {(x, True), ("%s != ''" % x, True), ("len(%s)" % x, True), ("len(%s) > 0" % x, True)} | {(m_, False) for m_ in mvs}
+        extra = [c_ for c_ in g_ if c_ not in allowed]
+        ctx.check(any(c_ in g_ for c_ in [(x, True), ("%s != ''" % x, True), ("len(%s)" % x, True), ("len(%s) > 0" % x, True)]) and not extra, "literal.every-non-empty", db.where(call), "text pieces are kept under %s: pieces other than the empty string (e.g. the blank between two expressions) are dropped from the value" % (extra or g_), "every non-empty text piece kept")
+    exprs = [(n_, e_) for m_ in mvs for n_, e_ in P.find(lp, "$e.append('(%%s)' %% %s.group(1))" % m_)]
     ctx.check(len(exprs) == 1, "expression.parenthesised", db.where(lp), "an expression piece is not appended as '(' + expression + ')' unchanged", "expression -> (expression)")
     outs = [e_["e"][0] for _n, e_ in lits + exprs]
-    joins = P.find(fn, "self.parsed_attributes[$k] = ' + '.join($e) or repr('')")
-    ctx.check(bool(joins) and len(set(outs)) == 1 and joins[0][1]["e"][0] == outs[0], "joined-in-order", db.where(fn), "the pieces are not joined with + in the order they were found", "' + '.join(pieces)")
+    outn = [src(e_["e"][1]) for _n, e_ in lits + exprs]
+    joined = [c_ for c_ in walk_func(fn) if isinstance(c_, ast.Call) and P.matches(c_, "' + '.join($e)") and outn and src(c_.args[0]) == outn[0]]
+    stored = False
+    for c_ in joined:
+        st = enclosing_stmt(c_)
+        if isinstance(st, ast.Assign):
+            if any(P.matches(t_, "self.parsed_attributes[$k]") for t_ in st.targets):
+                stored = True
+            else:
+                # through a local (possibly one element of a tuple assignment)
+                names = {n_.id for t_ in st.targets for n_ in ast.walk(t_) if isinstance(n_, ast.Name)}
+                stored = any(isinstance(s_, ast.Assign) and any(P.matches(t_, "self.parsed_attributes[$k]") for t_ in s_.targets) and isinstance(s_.value, ast.Name) and s_.value.id in names for s_ in walk_func(fn))
+    ctx.check(bool(joined) and len(set(outs)) == 1 and stored, "joined-in-order", db.where(fn), "the pieces are not joined with + in the order they were found and stored as the attribute's expression", "' + '.join(pieces) stored in parsed_attributes")
     mutators = [c_ for c_ in ast.walk(fn) if isinstance(c_, ast.Call) and isinstance(c_.func, ast.Attribute) and c_.func.attr in ("sort", "reverse", "insert", "pop", "remove") and outs and _dumpname(c_.func.value) == outs[0]]
     ctx.check(not mutators, "no-reorder", db.where(mutators[0]) if mutators else db.where(fn), "the list of pieces is reordered / pruned before it is joined", "pieces untouched between collection and join")
 
